@@ -7,7 +7,8 @@
    Identifiers are numbers: sid = the hub's numeric session id (the value inside
    the signed session ids), conn = connection number chosen by the driver,
    backends by index, rooms / users / Nextcloud session ids by number. *)
-From Coq Require Import List NArith Bool.
+From Coq Require Import String List NArith ZArith Bool.
+From Verif Require Import gen.Params.
 Import ListNotations.
 Open Scope N_scope.
 
@@ -57,8 +58,15 @@ Fixpoint pset {V} (l : list ((N * N) * V)) (k : N * N) (v : V) : list ((N * N) *
 Inductive idref := IdPriv (n : N) | IdPub (n : N) | IdOther (k : N) | IdRS (n : N).
 Inductive recipient := RSession (i : idref) | RUser (u : N) | RRoom | RCall.
 
+(* A protocol 2.0 token as the driver built it: the signing method its header names (index into
+   v2_alg_names), whose private key made the signature (0: the signature verifies under no key any
+   backend publishes; b+1: the key pair whose public half backend b publishes), and the time claims
+   in seconds relative to the moment the request is processed. *)
+Record v2tok := mkv2 { t_alg : N; t_signer : N; t_iat : option Z; t_nbf : option Z; t_exp : option Z }.
+
 Inductive hello :=
 | HV1 (b u : N) (reject : bool)
+| HV2 (b u : N) (t : v2tok)
 | HInternal (b tok : N) (incallfeat dialout : bool)     (* tok = 0: valid token *)
 | HResume (i : idref).
 
@@ -94,7 +102,11 @@ Inductive op :=
 | OMedia (c : N) (to : recipient) (mk stream media : N)
 | OMcuDone (tok : N) (ok : bool)
 | OTransient (c kind key val : N)
-| ODeliver (pos : N).
+| ODeliver (pos : N)
+(* the connection is closed while its hello is being processed: before the backend answered (late =
+   false) or after the new session was entered into the backend's list and before it is entered into
+   the hub's tables (late = true); for a resume: while the hub looks the session up *)
+| OHelloAborted (c : N) (h : hello) (late : bool).
 
 Inductive rcpt := RcptVirtual (v : N) | RcptSid (s : N) | RcptOther.
 
@@ -126,6 +138,7 @@ Definition E_too_many_requests := 11.  Definition E_already_joined := 13.
 Definition E_not_allowed := 14.        Definition E_client_not_found := 15.
 Definition E_not_in_room := 17.        Definition E_invalid_user := 19.
 Definition E_session_limit := 21.
+Definition E_token_not_valid_yet := 9. Definition E_token_expired := 10.
 Definition B_hello_timeout := 1.       Definition B_room_join_timeout := 2.
 Definition B_session_resumed := 3.     Definition B_room_session_reconnected := 4.
 
@@ -300,7 +313,14 @@ Fixpoint filter_seen (seen : list N) (l : list (N * N)) : list (N * N) * list N 
       else let '(keep, seen') := filter_seen (seen ++ [sid]) r in ((sid, u) :: keep, seen')
   end.
 
-Definition is_chat_refresh (m : smsg) : bool := false.   (* not generated by the driver's alphabet *)
+(* a "message" whose data is {"type":"chat","chat":{"refresh":true}}: the driver sends it as the message with this tag *)
+Definition CHAT_REFRESH_TAG := 77.
+Definition is_chat_refresh (m : smsg) : bool :=
+  match m with SMsg 0 _ _ _ _ t => N.eqb t CHAT_REFRESH_TAG | _ => false end.
+(* storePendingMessage: only one chat-refresh notice is kept for a resume (hasPendingChat is set
+   when one is queued and cleared when the queue is flushed: it is "the queue holds one") *)
+Definition enqueue (q : list smsg) (m : smsg) : list smsg :=
+  if is_chat_refresh m && existsb is_chat_refresh q then q else q ++ [m].
 
 (* ClientSession.SendMessage: per-session filters, then the connection or the pending queue.
    Returns the new hub and the outputs; a bye written to a connection is handled by the caller
@@ -322,7 +342,7 @@ Definition deliver_to_session (h : hub) (sid : N) (m : smsg) : hub * list out :=
       | Some mm =>
           match s1.(s_conn) with
           | Some c => (put_sess h sid s1, [ToConn c mm])
-          | None => (put_sess h sid (sess_pending s1 (s1.(s_pending) ++ [mm])), [])
+          | None => (put_sess h sid (sess_pending s1 (enqueue s1.(s_pending) mm)), [])
           end
       end
   end.
@@ -562,6 +582,45 @@ Definition register (h : hub) (c : N) (cn : conn) (b : N) (k : kind) (u : N) : h
 
 Definition flush (c : N) (l : list smsg) : list out := map (ToConn c) l.
 
+(* ---- protocol 2.0 tokens (processHelloV2) ----
+   Signing methods by index; which of them the parser is told to accept comes from the source
+   (gen/Params.v hub_valid_methods = the list given to jwt.WithValidMethods). *)
+Definition v2_alg_names : list string :=
+  ["RS256"; "RS384"; "RS512"; "ES256"; "ES384"; "ES512"; "EdDSA"; "HS256"; "none"]%string.
+Definition v2_alg_valid (a : N) : bool :=
+  match nth_error v2_alg_names (N.to_nat a) with
+  | Some n => existsb (String.eqb n) hub_valid_methods
+  | None => false
+  end.
+(* key family a method needs (the type switch of the key function): 0 RSA, 1 ECDSA, 2 Ed25519, 3 none of them *)
+Definition v2_alg_family (a : N) : N := if a <? 3 then 0 else if a <? 6 then 1 else if N.eqb a 6 then 2 else 3.
+(* the family of the key backend b publishes in its capabilities (the driver's convention) *)
+Definition v2_key_family (b : N) : N := b mod 3.
+Definition v2_leeway : Z := (hub_tokenLeeway / 1000000000)%Z.
+
+(* 0 = the token is accepted for backend b; otherwise the error code of the reply *)
+Definition v2_check (nb b : N) (t : v2tok) : N :=
+  if nb <=? b then E_invalid_backend
+  else if negb (v2_alg_valid t.(t_alg)) then E_invalid_token
+  else if 3 <=? v2_alg_family t.(t_alg) then E_invalid_token
+  else if negb (N.eqb (v2_alg_family t.(t_alg)) (v2_key_family b)) then E_invalid_token
+  else if negb (N.eqb t.(t_signer) (b + 1)) then E_invalid_token
+  else
+    (* the library's claim validation: all failures are collected, the hub looks at their kinds *)
+    let exp_bad := match t.(t_exp) with Some e => negb (0 <? e + v2_leeway)%Z | None => false end in
+    let nbf_bad := match t.(t_nbf) with Some n => (0 <? n - v2_leeway)%Z | None => false end in
+    let iat_bad := match t.(t_iat) with Some i => (0 <? i - v2_leeway)%Z | None => false end in
+    if nbf_bad || iat_bad then E_token_not_valid_yet
+    else if exp_bad then E_token_expired
+    else
+      (* the hub's own rules *)
+      match t.(t_iat), t.(t_exp) with
+      | Some i, Some e => if (e <? i)%Z then E_token_expired
+                          else if (e <? 0 - v2_leeway)%Z then E_token_expired else 0
+      | None, _ => E_token_not_valid_yet
+      | Some _, None => E_token_expired
+      end.
+
 Definition do_hello (h : hub) (c : N) (cn : conn) (hl : hello) : hub * list out :=
   let expect_again hh := set_conns hh (aset hh.(h_conns) c (mkconn cn.(c_addr) None true)) in
   match hl with
@@ -600,6 +659,11 @@ Definition do_hello (h : hub) (c : N) (cn : conn) (hl : hello) : hub * list out 
       if h.(h_nb) <=? b then (expect_again h, [ToConn c (SError E_invalid_backend)])
       else if reject then (expect_again h, [ToBackend (b, 0, 0, 0, 0, 1); ToConn c (SError E_invalid_user)])
       else let '(h1, outs) := register h c cn b KClient u in (h1, ToBackend (b, 0, 0, 0, 0, 1) :: outs)
+  | HV2 b u t =>
+      match v2_check h.(h_nb) b t with
+      | 0 => register h c cn b KClient u
+      | e => (expect_again h, [ToConn c (SError e)])
+      end
   | HInternal b tok incallfeat dialout =>
       if throttled h cn.(c_addr) ACT_INTERNAL then (expect_again h, [ToConn c (SError E_too_many_requests)])
       else if negb (N.eqb tok 0) then
@@ -782,6 +846,8 @@ Definition revoke (h : hub) (sid : N) : hub * list out :=
 Definition resolve_rs (h : hub) (i : idref) : option N :=
   match i with
   | IdRS n => aget h.(h_rs2) (1000000 + n)
+  (* a session that joined without a Nextcloud session id is in the map under its own public id *)
+  | IdPub n => aget h.(h_rs2) (2000000 + n)
   | _ => None
   end.
 
@@ -811,9 +877,9 @@ Definition delete_member (hh : hub) (m : N) : hub * list out :=
   | Some s =>
       let '(h2, outs1) := leave_room hh m true in
       if is_virtual s.(s_kind) then (h2, outs1)
-      else match s.(s_conn) with
-           | Some _ => let '(h3, outs2) := send_session h2 m (SRoom 0) in (h3, outs1 ++ outs2)
-           | None => (h2, outs1) end
+      else
+        (* connected or not: a disconnected session finds the notice in its queue when it resumes *)
+        let '(h3, outs2) := send_session h2 m (SRoom 0) in (h3, outs1 ++ outs2)
   end.
 
 (* the room's handling of a request coming from the room API *)
@@ -1295,6 +1361,28 @@ Definition step (h : hub) (o : op) : hub * list out :=
                  end
         end)
   | ODeliver pos => deliver_at h (N.to_nat pos)
+  | OHelloAborted c hl late =>
+      match aget h.(h_conns) c with
+      | None => (h, [])
+      | Some cn =>
+          match cn.(c_sess) with
+          | Some _ => (h, [])
+          | None =>
+              match hl with
+              | HResume _ =>
+                  (* "client disconnected while checking message": nothing is attached, nothing changes *)
+                  close_conn h c
+              | HV1 b u false =>
+                  if h.(h_nb) <=? b then (h, [])
+                  else
+                    (* the backend was asked; the answer finds the connection closed. late: a session id was
+                       used up and the slot taken in the backend's list is given back when the session is closed *)
+                    let h1 := if late then set_nextsid h (next_id h) else h in
+                    let '(h2, outs) := close_conn h1 c in (h2, ToBackend (b, 0, 0, 0, 0, 1) :: outs)
+              | _ => (h, [])     (* not generated: the driver sends these as a hello followed by a drop *)
+              end
+          end
+      end
   end.
 
 (* quiescent semantics: the step, then every queued publication in publication order *)
